@@ -257,13 +257,14 @@ pub fn is_valid_identifier(name: &str) -> bool {
 
 fn name_needs_quoting(name: &str) -> bool {
     let chars = name.chars();
-    // it contains any of these characters: ()'$,;-+{} or space
+    // Unquoted, the lexer reads a sheet name as an identifier: a letter or underscore followed by
+    // letters, digits, underscores and periods. Anything else (spaces, ()'$,;-+{}, operators such as
+    // & = < > ^ % ! @ # " ~, a leading digit or period ...) must be quoted to be read back.
     for (i, char) in chars.enumerate() {
-        if [' ', '(', ')', '\'', '$', ',', ';', '-', '+', '{', '}'].contains(&char) {
+        if !(char.is_alphanumeric() || char == '_' || char == '.') {
             return true;
         }
-        // if it starts with a number
-        if i == 0 && char.is_ascii_digit() {
+        if i == 0 && !(char.is_alphabetic() || char == '_') {
             return true;
         }
     }
